@@ -27,7 +27,8 @@ def generate(tier, seed):
         for t in combos: reqs.append("(concat %s)" % " ".join(t))
     for _ in range(400 if tier == "quick" else 8000):
         reqs.append("(concat %s)" % " ".join(rng.choice(STRS + ["1", "'a", "nil"]) for _ in range(rng.randint(1, 5))))
-    trip = rng.sample(list(itertools.product(STRS, repeat=3)), 500 if tier == "quick" else 10000)
+    alltrip = list(itertools.product(STRS, repeat=3))
+    trip = rng.sample(alltrip, min(len(alltrip), 500 if tier == "quick" else 10000))
     for a, b, c in trip:
         reqs.append("(list (concat (concat %s %s) %s) (concat %s (concat %s %s)) (concat %s \"\") (concat \"\" %s))" % (a, b, c, a, b, c, a, a))
     for a, b in itertools.product(STRS, repeat=2):
